@@ -171,7 +171,7 @@ impl Property for C11 {
         "ENUMERATED: single-block outputs of every length (thorough: 0..=4096 bits; quick: 0..=520 and every length congruent to 0,1,7,8,9,15,16,17,127,128,129,255 mod 256 up to 4096) \
          x content {pseudo-random, all ones, all zeros}, built directly through the BitVec API with one span, formatted by driver::format_output in each of 19 format spellings \
          (binary, binstr, hexstr, bindump, hexdump, mif, intelhex with addr_unit default/8/16/32, dec/hex comma/space, decc, hexc, c, logisim8/16). RANDOM: programs of #dN pieces \
-         (N = 1..64) with 1-4 blocks separated by forward #addr gaps (on any byte boundary), labels and #res reservations between the pieces, or - one case in four - in a bank with 1-, 2- or 4-bit addresses where #res and forward #addr let a written range start at ANY bit offset, assembled and formatted the same way. Oracle = an independent decoder \
+         (N = 1..64) with 1-4 blocks separated by forward #addr gaps (on any byte boundary), labels and #res reservations between the pieces, or - one case in four - in a bank with 1-, 2- or 4-bit addresses where #res and forward #addr let a written range start at ANY bit offset, assembled and formatted the same way, and then once more through the command-line driver with three output groups in ONE invocation (three consecutive format spellings of the list, so that the parameter variants of one format meet), each written file decoded by its own format and parameters. Oracle = an independent decoder \
          per format (addresses, '.' padding and ASCII column of the dumps, DEPTH/addresses/END of MIF, record length/address/type/checksum/EOF of Intel HEX with union of records = \
          every written bit, 16-per-line structure and address comments of the list formats): the decoded bits must equal the output zero-padded to the format's granule. \
          Non-trivial = length not a multiple of the granule (8), or within +-1 of a line/record size (128, 256 bits), or >= 2 blocks, or length 0; distinct by (length, content kind) / hash of source."
@@ -331,7 +331,55 @@ impl Property for C11 {
             ctx.render(|| json!({"source": src}));
             return Verdict::fail("assembled-bits-differ", format!("expected {} got {}", sut::bits_hex(&bits), sut::bits_hex(&got)));
         }
-        match run_all_formats(&res, &fs, out, &bits, &blocks, ctx) {
+        let all = run_all_formats(&res, &fs, out, &bits, &blocks, ctx);
+        // round 12: the same program through the command-line driver with THREE output groups in one invocation
+        // (three consecutive format spellings, so that the parameter variants of one format meet): every file must
+        // still decode to the assembled bits by the rules of ITS OWN format and parameters
+        let all = if all.is_some() {
+            all
+        } else {
+            let start = bits.len() % FORMATS.len();
+            let names: Vec<&str> = (0..3).map(|k| FORMATS[(start + k) % FORMATS.len()]).collect();
+            let mut args: Vec<String> = vec!["main.asm".into(), "-q".into()];
+            for (k, n) in names.iter().enumerate() {
+                if k > 0 {
+                    args.push("--".into());
+                }
+                args.extend(["-f".to_string(), n.to_string(), "-o".to_string(), format!("o{}.out", k)]);
+            }
+            let mut fs2 = MemFs::new();
+            fs2.add("main.asm", src.as_bytes().to_vec());
+            ctx.evals += 1;
+            match sut::drive(&mut fs2, &args) {
+                Err(p) => Some(("groups|panic".to_string(), format!("{:?}: panic {}", args, p))),
+                Ok(o) if !o.ok => Some(("groups|valid-command-line-rejected".to_string(), format!("{:?}: {}", args, sut::first_error_text(&o.msgs)))),
+                Ok(o) => {
+                    let mut bad = None;
+                    for (k, n) in names.iter().enumerate() {
+                        let fname = format!("o{}.out", k);
+                        match o.writes.iter().rev().find(|w| w.0 == fname) {
+                            None => {
+                                bad = Some(("groups|file-missing".to_string(), format!("{:?}: {} was not written", args, fname)));
+                                break;
+                            }
+                            Some(w) => {
+                                if let Err(e) = check_format(n, &w.1, &bits, &blocks) {
+                                    let clause = format!("groups|{}|wrong-content", n.split(',').next().unwrap());
+                                    if ctx.is_known(&clause) {
+                                        ctx.known_hits.push(clause);
+                                        continue;
+                                    }
+                                    bad = Some((clause, format!("{:?}: group {} ({}): {} -- text: {:?}", args, k, n, e, String::from_utf8_lossy(&w.1).chars().take(300).collect::<String>())));
+                                    break;
+                                }
+                            }
+                        }
+                    }
+                    bad
+                }
+            }
+        };
+        match all {
             None => Verdict::Pass,
             Some((c, d)) => {
                 ctx.want_render = true;
